@@ -2,7 +2,6 @@
 
 from __future__ import annotations
 
-import re
 from collections.abc import Sequence
 from typing import Any
 
@@ -286,11 +285,10 @@ class NetworkxGraph(AbstractGraph):
             most_specific_aliased_module = next(
                 module
                 for module in sorted_aliased_modules
-                if module_name.startswith(module)
+                if module_name == module or module_name.startswith(f"{module}.")
             )
-            alias = re.sub(rf"^{most_specific_aliased_module}", "", module_name)
-            alias = aliases[most_specific_aliased_module] + alias
-            return alias
+            remainder = module_name[len(most_specific_aliased_module) :]
+            return aliases[most_specific_aliased_module] + remainder
 
         except StopIteration:  # no alias for module or parent module
             return module_name
